@@ -22,7 +22,7 @@ func init() {
 		Doc: "every store's NodeURLPrefix identifies the container its Load/Store address: its result depends on the receiver's identity, or on every string-typed location field " +
 			"that Load/Store read (S3: BucketName and Prefix; file: the base path) — directly or through the value the constructor stored — so two stores that address different objects never share cache keys.",
 		Run: runNODEURLPREFIX})
-	Register(&Rule{ID: "DECODEFRESH", Props: []string{"C05", "C08"}, Min: 1,
+	Register(&Rule{ID: "DECODEFRESH", Props: []string{"C05", "C08", "C01"}, Min: 1,
 		Doc: "every decoded key/value gets its own freshly allocated target: a reflect.New whose result is stored into a slice element inside a loop is itself executed inside that loop " +
 			"(a hoisted target makes all entries of a node alias or inherit leftovers of the previous entry).",
 		Run: runDECODEFRESH})
